@@ -142,7 +142,7 @@ var pureExternPrefixes = []string{
 	"(github.com/cosmos/cosmos-sdk/types.Coins).", "(github.com/cosmos/cosmos-sdk/types.DecCoins).", "(github.com/cosmos/cosmos-sdk/types.Coin).", "(github.com/cosmos/cosmos-sdk/types.DecCoin).",
 	"github.com/cosmos/cosmos-sdk/types.NewCoins", "github.com/cosmos/cosmos-sdk/types.NewCoin", "github.com/cosmos/cosmos-sdk/types.NewDecCoinsFromCoins", "github.com/cosmos/cosmos-sdk/types.NewDecCoins",
 	"github.com/cosmos/cosmos-sdk/types/address.Module",
-	"cosmossdk.io/errors.ABCIInfo", "cosmossdk.io/math.LegacyNewDecFromStr", "(cosmossdk.io/math.LegacyDec).Mul", "(cosmossdk.io/math.LegacyDec).Quo", "(cosmossdk.io/math.LegacyDec).String", "strings.", "bytes.", "encoding/hex.", "strconv.", "crypto/sha256.Sum256", "github.com/cosmos/cosmos-sdk/types/address.MustLengthPrefix",
+	"cosmossdk.io/errors.ABCIInfo", "cosmossdk.io/math.LegacyNewDecFromStr", "(cosmossdk.io/math.LegacyDec).Mul", "(cosmossdk.io/math.LegacyDec).Quo", "(cosmossdk.io/math.LegacyDec).RoundInt", "(cosmossdk.io/math.LegacyDec).String", "strings.", "bytes.", "encoding/hex.", "strconv.", "crypto/sha256.Sum256", "github.com/cosmos/cosmos-sdk/types/address.MustLengthPrefix",
 	"(github.com/cosmos/cosmos-sdk/types.AccAddress).Bytes", "(github.com/cosmos/cosmos-sdk/types.ValAddress).Bytes",
 	"github.com/cosmos/cosmos-sdk/x/auth/types.NewModuleAddress",
 	"(github.com/cosmos/cosmos-sdk/x/staking/types.ValidatorI).", "(github.com/cosmos/cosmos-sdk/types.ModuleAccountI).", "(github.com/cosmos/cosmos-sdk/types.AccountI).", "(github.com/cosmos/cosmos-sdk/x/staking/types.Validator).",
@@ -375,6 +375,12 @@ func (fc *FCtx) evalBuiltin(name string, e *ast.CallExpr, st *State) []Val {
 		case KOpaque:
 			if isBz(x.S) {
 				return []Val{{T: app("bz_"+name, x.T), S: SInt, GoT: intT}}
+			}
+			if x.S.Name == "Addr" && name == "len" {
+				// addresses are opaque; their byte length is an uninterpreted attribute (0..255)
+				fc.U.Fun("addr_len", []*Sort{x.S}, SInt)
+				st.assume(fmt.Sprintf("(and (<= 0 (addr_len %s)) (<= (addr_len %s) 255))", x.T, x.T))
+				return []Val{{T: app("addr_len", x.T), S: SInt, GoT: intT}}
 			}
 			oos("len of %s", x.S.Name)
 		case KMap:
@@ -967,26 +973,33 @@ var extAliases = map[string]struct {
 	full string
 	ret  string // "Int", "Bool", "Str", or a Go type expression resolved in the spec's package
 }{
-	"Coins.AmountOf":            {"(github.com/cosmos/cosmos-sdk/types.Coins).AmountOf", "Int"},
-	"Coins.IsZero":              {"(github.com/cosmos/cosmos-sdk/types.Coins).IsZero", "Bool"},
-	"Coins.IsAllGTE":            {"(github.com/cosmos/cosmos-sdk/types.Coins).IsAllGTE", "Bool"},
-	"Coins.IsAllGT":             {"(github.com/cosmos/cosmos-sdk/types.Coins).IsAllGT", "Bool"},
-	"Coins.MulInt":              {"(github.com/cosmos/cosmos-sdk/types.Coins).MulInt", "sdk.Coins"},
-	"Coins.Add":                 {"(github.com/cosmos/cosmos-sdk/types.Coins).Add", "sdk.Coins"},
-	"Coins.Sub":                 {"(github.com/cosmos/cosmos-sdk/types.Coins).Sub", "sdk.Coins"},
-	"Coins.IsAnyGT":             {"(github.com/cosmos/cosmos-sdk/types.Coins).IsAnyGT", "Bool"},
-	"bytes.Join":                {"bytes.Join", "Bz"},
-	"FieldVal.Equals":           {"(*github.com/decred/dcrd/dcrec/secp256k1/v4.FieldVal).Equals", "Bool"},
-	"big.Int.Bytes":             {"(*math/big.Int).Bytes", "Bz"},
-	"PublicKey.X":               {"(*github.com/decred/dcrd/dcrec/secp256k1/v4.PublicKey).X", "Int"},
-	"PublicKey.Y":               {"(*github.com/decred/dcrd/dcrec/secp256k1/v4.PublicKey).Y", "Int"},
-	"NewDecCoinsFromCoins":      {"github.com/cosmos/cosmos-sdk/types.NewDecCoinsFromCoins", "sdk.DecCoins"},
-	"DecCoins.Sub":              {"(github.com/cosmos/cosmos-sdk/types.DecCoins).Sub", "sdk.DecCoins"},
-	"binary.Varint":             {"encoding/binary.Varint", "Int"},
-	"binary.Varint#1":           {"encoding/binary.Varint", "Int"},
-	"merkle.HashFromByteSlices": {"github.com/cometbft/cometbft/crypto/merkle.HashFromByteSlices", "Bz"},
-	"ValidatorI.GetTokens":      {"(github.com/cosmos/cosmos-sdk/x/staking/types.ValidatorI).GetTokens", "Int"},
-	"ValidatorI.GetOperator":    {"(github.com/cosmos/cosmos-sdk/x/staking/types.ValidatorI).GetOperator", "Str"},
+	"Coins.AmountOf":                      {"(github.com/cosmos/cosmos-sdk/types.Coins).AmountOf", "Int"},
+	"Coins.IsZero":                        {"(github.com/cosmos/cosmos-sdk/types.Coins).IsZero", "Bool"},
+	"Coins.IsAllGTE":                      {"(github.com/cosmos/cosmos-sdk/types.Coins).IsAllGTE", "Bool"},
+	"Coins.IsAllGT":                       {"(github.com/cosmos/cosmos-sdk/types.Coins).IsAllGT", "Bool"},
+	"Coins.MulInt":                        {"(github.com/cosmos/cosmos-sdk/types.Coins).MulInt", "sdk.Coins"},
+	"Coins.Add":                           {"(github.com/cosmos/cosmos-sdk/types.Coins).Add", "sdk.Coins"},
+	"Coins.Sub":                           {"(github.com/cosmos/cosmos-sdk/types.Coins).Sub", "sdk.Coins"},
+	"Coins.IsAnyGT":                       {"(github.com/cosmos/cosmos-sdk/types.Coins).IsAnyGT", "Bool"},
+	"Coins.SafeSub":                       {"(github.com/cosmos/cosmos-sdk/types.Coins).SafeSub", "sdk.Coins"},
+	"Coins.SafeSub#1":                     {"(github.com/cosmos/cosmos-sdk/types.Coins).SafeSub", "Bool"},
+	"Coins.Equal":                         {"(github.com/cosmos/cosmos-sdk/types.Coins).Equal", "Bool"},
+	"NewCoins":                            {"github.com/cosmos/cosmos-sdk/types.NewCoins", "sdk.Coins"},
+	"ModuleAccountI.GetAddress":           {"(github.com/cosmos/cosmos-sdk/types.AccountI).GetAddress", "Addr"},
+	"LegacyDec.RoundInt":                  {"(cosmossdk.io/math.LegacyDec).RoundInt", "Int"},
+	"Validator.TokensFromSharesTruncated": {"(github.com/cosmos/cosmos-sdk/x/staking/types.Validator).TokensFromSharesTruncated", "Int"},
+	"bytes.Join":                          {"bytes.Join", "Bz"},
+	"FieldVal.Equals":                     {"(*github.com/decred/dcrd/dcrec/secp256k1/v4.FieldVal).Equals", "Bool"},
+	"big.Int.Bytes":                       {"(*math/big.Int).Bytes", "Bz"},
+	"PublicKey.X":                         {"(*github.com/decred/dcrd/dcrec/secp256k1/v4.PublicKey).X", "Int"},
+	"PublicKey.Y":                         {"(*github.com/decred/dcrd/dcrec/secp256k1/v4.PublicKey).Y", "Int"},
+	"NewDecCoinsFromCoins":                {"github.com/cosmos/cosmos-sdk/types.NewDecCoinsFromCoins", "sdk.DecCoins"},
+	"DecCoins.Sub":                        {"(github.com/cosmos/cosmos-sdk/types.DecCoins).Sub", "sdk.DecCoins"},
+	"binary.Varint":                       {"encoding/binary.Varint", "Int"},
+	"binary.Varint#1":                     {"encoding/binary.Varint", "Int"},
+	"merkle.HashFromByteSlices":           {"github.com/cometbft/cometbft/crypto/merkle.HashFromByteSlices", "Bz"},
+	"ValidatorI.GetTokens":                {"(github.com/cosmos/cosmos-sdk/x/staking/types.ValidatorI).GetTokens", "Int"},
+	"ValidatorI.GetOperator":              {"(github.com/cosmos/cosmos-sdk/x/staking/types.ValidatorI).GetOperator", "Str"},
 }
 
 // mapCard declares the cardinality function of a map sort with the point-update axioms (mathematics of
